@@ -22,7 +22,7 @@ cargo test --offline -p cedar-policy $FEAT --test mutant_demo > "$D/confirm_clea
 git apply "$D/patch.diff" || { echo "$M: patch does not apply"; exit 2; }
 cargo test --offline -p cedar-policy $FEAT --test mutant_demo > "$D/confirm_mutant.log" 2>&1; m=$?
 rm -f cedar-policy/tests/mutant_demo.rs
-cargo test --offline -p cedar-policy-core --lib > "$D/confirm_core_tests.log" 2>&1; t1=$?
+t1=skipped; if grep -q "cedar-policy-core/" "$D/patch.diff"; then cargo test --offline -p cedar-policy-core --lib > "$D/confirm_core_tests.log" 2>&1; t1=$?; fi  # core is untouched otherwise
 cargo test --offline -p cedar-policy --lib $FEAT > "$D/confirm_api_tests.log" 2>&1; t2=$?
 t3=0
 if grep -q "cedar-policy-formatter/" "$D/patch.diff"; then cargo test --offline -p cedar-policy-formatter > "$D/confirm_formatter_tests.log" 2>&1; echo "$M: formatter_tests_exit=$?"; fi
